@@ -343,13 +343,28 @@ class Listener(threading.Thread):
             served += 1
             closing = cfg.get("close_after") is not None and served >= cfg["close_after"]
             loc = redirect_for(cfg, req.target.decode("latin-1"))
+            if cfg.get("stray_after_request") == served and cfg.get("stray_kind") == "same-record":
+                # the response is padded to exactly 8192 bytes (one read of http.client's buffered reader) and an
+                # unsolicited response follows in the same TLS record: it ends up decrypted inside the client's TLS
+                # object, where polling the file descriptor cannot see it
+                body = ("origin:" + req.target.decode("latin-1")).encode()
+                pad = 0
+                for _ in range(6):
+                    full = wire.build_response(200, body=body + b";" + b"p" * pad)
+                    if len(full) == 8192:
+                        break
+                    pad = max(0, pad + 8192 - len(full))
+                e["same_record_len"] = len(full)
+                stream.sendall(full + wire.build_response(200, "STRAY", body=b"STRAY-unsolicited-after:" + req.target))
+                e["stray_sent"] = True
+                continue
             if loc:
                 stream.sendall(wire.build_response(302, "Found", headers=[("Location", loc)], body=b"", keepalive=not closing or bool(cfg.get("silent_close"))))
             else:
                 stream.sendall(wire.build_response(200, body=("origin:" + req.target.decode("latin-1")).encode(), keepalive=not closing or bool(cfg.get("silent_close"))))
             if closing:
                 return
-            if cfg.get("stray_after_request") == served:
+            if cfg.get("stray_after_request") == served and cfg.get("stray_kind") != "same-record":
                 # unsolicited bytes on the idle connection, in a record of their own, a moment after the response
                 time.sleep(0.03)
                 kind = cfg.get("stray_kind", "response")
